@@ -23,7 +23,7 @@ man = {
     "hooks": {
         "guard": "cargo feature `verif-hooks` (off by default) on iroh-base, iroh-dns, iroh-relay, iroh, iroh-dns-server",
         "enable": "the harness crates under /verif/harness depend on /repo's crates by path with features=[\"verif-hooks\"]; `./check <ID> <tier>` runs `cargo build --offline` there, which recompiles /repo's working tree with the feature on",
-        "baseline_off_cmd": "cd /repo/$(cat /w/out/cargo_root.txt) && cargo nextest run --workspace --no-fail-fast --tool-config-file pb:/w/lib/nextest.toml --profile pb --test-threads 8 --offline  (the pinned command of /root/.vp/BASELINE.json; no feature flags, so `verif-hooks` is off; fallback: cargo test --workspace --no-fail-fast --offline)",
+        "baseline_off_cmd": "cd /repo/$(cat /w/out/cargo_root.txt) && cargo nextest run --workspace --no-fail-fast --tool-config-file pb:/w/lib/nextest.toml --profile pb --test-threads 8 --offline",
         "source_commits": hook_commits,
         "add_only": True,
     },
